@@ -20,7 +20,11 @@ var c17Alphabet = []byte{'a', 'b', 'c', ' ', '\n', '\n', '\n', '\r', 0xff, 0x00,
 // c17Chunk draws one Write payload: short pieces over a newline-heavy
 // alphabet, sometimes a very long run (long lines), sometimes arbitrary bytes.
 func c17Chunk(t *rapid.T, maxRun int) []byte {
-	switch rapid.IntRange(0, 9).Draw(t, "chunkKind") {
+	k := rapid.IntRange(0, 9).Draw(t, "chunkKind")
+	if k == 2 && rapid.IntRange(0, 5).Draw(t, "veryLong") == 0 {
+		return c17LongRun(t)
+	}
+	switch k {
 	case 0:
 		return nil // empty write
 	case 1:
@@ -44,6 +48,13 @@ func c17MaxRun() int {
 		return 1 << 16
 	}
 	return 3000
+}
+
+// c17LongRun: occasionally a very long partial line (beyond 64 KiB once two
+// such chunks meet without a newline in between).
+func c17LongRun(t *rapid.T) []byte {
+	n := rapid.IntRange(30000, 70000).Draw(t, "longRun")
+	return bytes.Repeat([]byte{'z'}, n)
 }
 
 type c17Op struct {
